@@ -161,3 +161,29 @@ Definition render_x (cf : cfg) (ux : user_ext) (fuel : nat) (name : bstr) (data_
       | OutOfModel => mk OutOfModel [] 0
       end
   end.
+
+(* ------------------------------------------------------------------ *)
+(* the installation the C08 harness makes (go/cmd/soyverif/c08.go c08Install), so that the extended walker is
+   compared with the implementation under a populated configuration:
+     PrintDirectives["verifBang"] = {Apply: v -> String(v.String() + "!"), ValidArgLengths: {0}}
+     Funcs["verifTwice"] = {Apply: args -> n, _ := args[0].(Int); Int(2 * n), {1}}
+     Funcs["verifSame"]  = {Apply: args -> args[0], {1}}     (hands back its argument: a map stays the caller's) *)
+Definition n_verifBang := Eval vm_compute in b "verifBang".
+Definition n_verifTwice := Eval vm_compute in b "verifTwice".
+Definition n_verifSame := Eval vm_compute in b "verifSame".
+
+Definition ux_harness (with_dir with_funcs : bool) : user_ext :=
+  {| ux_func := fun name =>
+       if with_funcs && bstr_eqb name n_verifTwice then
+         Some ([1], fun vs => match vs with
+                              | VInt n :: _ => Ok (FVal (VInt (wrap64 (2 * n))))
+                              | _ :: _ => Ok (FVal (VInt 0))
+                              | [] => Err e_index
+                              end)
+       else if with_funcs && bstr_eqb name n_verifSame then
+         Some ([1], fun vs => match vs with v :: _ => Ok (FVal v) | [] => Err e_index end)
+       else None;
+     ux_dir := fun name =>
+       if with_dir && bstr_eqb name n_verifBang then
+         Some ([0], (false, fun v _ => s <- value_string v ;; Ok (VStr (s ++ [33]))))
+       else None |}.
